@@ -3,6 +3,20 @@
 import json,glob,os,re
 print("| change | property | needs to manifest | repo tests pass | demo fails/passes | caught by (first fingerprint) |")
 print("|---|---|---|---|---|---|")
+def load(d):
+    try:
+        return json.load(open(d+'verify.json'))
+    except Exception:
+        return None
+# cross-checks: seeded/<owner>-x<NN>-<round><a|b> is the seed <CNN>-<round><a|b> run against <owner>'s check
+cross={}
+for d in sorted(glob.glob('/verif/seeded/*-x*/')):
+    n=os.path.basename(d.rstrip('/'))
+    m=re.match(r'(C\d\d)-x(\d\d)-?(.*)$',n)
+    v=load(d)
+    if m and v and v.get('caught'):
+        label=m.group(3) or ''
+        cross.setdefault(f"C{m.group(2)}-{label}",[]).append((m.group(1),n))
 for d in sorted(glob.glob('/verif/seeded/*/')):
     n=os.path.basename(d.rstrip('/'))
     try:
@@ -11,8 +25,18 @@ for d in sorted(glob.glob('/verif/seeded/*/')):
         continue
     fp=[l for l in v.get('check_violation_lines',[]) if l.startswith('fingerprint:')]
     fp=fp[0][len('fingerprint: '):] if fp else ''
+    if v.get('new_fingerprints'):
+        fp=str(v['new_fingerprints'][0]).replace('fingerprint: ','')
+    if v.get('caught'):
+        cell=fp[:150]
+    elif not v.get('demo_fails_with_change'):
+        cell='not a violation on the current tree any more (the demonstration passes with the change: neutralised by a later repair)'
+    elif n in cross:
+        cell='not by '+v['property']+' (the mechanism belongs to another check): caught by '+', '.join(f"{o} (seeded/{x})" for o,x in cross[n])
+    else:
+        cell='**MISSED**'
     need=(m.get('needs_to_manifest') or '')[:140].replace('|','/').replace('\n',' ')
-    print(f"| seeded/{n} | {v['property']} | {need} | {'yes' if v.get('existing_tests_pass_with_change') else 'NO'} | {'yes' if v.get('demo_fails_with_change') else 'NO'}/{'yes' if v.get('demo_passes_without_change') else 'NO'} | {'**MISSED**' if not v.get('caught') else fp[:150]} |")
+    print(f"| seeded/{n} | {v['property']} | {need} | {'yes' if v.get('existing_tests_pass_with_change') else 'NO'} | {'yes' if v.get('demo_fails_with_change') else 'NO'}/{'yes' if v.get('demo_passes_without_change') else 'NO'} | {cell} |")
 print()
 print("| mutant (author-written) | first line |")
 print("|---|---|")
